@@ -39,11 +39,32 @@ def getNum (j : Json) : Except String (Option NumV) :=
   | .str "inf" => .ok (some .pinf)
   | .str "-inf" => .ok (some .ninf)
   | .str "nan" => .ok (some .nan)
+  | .str "snan" => .ok (some .snan)
   | .arr #[a, b] => do
       let n ← asBigInt a
       let d ← asBigInt b
       pure (some (.fin n d.toNat))
   | _ => .error "bad num"
+
+/-- a binary64 value: "inf" | "-inf" | "nan" | [neg, "m", q] -/
+def getF64 (j : Json) : Except String Xs.Conv.F64 :=
+  match j.getObjValD "f64" with
+  | .str "inf" => .ok (.inf false)
+  | .str "-inf" => .ok (.inf true)
+  | .str "nan" => .ok .nan
+  | .arr #[.bool neg, m, q] => do
+      let m ← asBigInt m
+      let q ← asBigInt q
+      pure (.fin neg m.toNat q)
+  | _ => .error "bad f64"
+
+/-- a Decimal as `as_tuple()` shows it: ["fin", neg, "coeff", exp] | ["inf", neg] | ["nan", neg, signaling, "payload"] -/
+def getDec (j : Json) : Except String Xs.Conv.Dec :=
+  match j.getObjValD "dec" with
+  | .arr #[.str "fin", .bool neg, c, x] => do pure (.fin neg (← asBigInt c).toNat (← asBigInt x))
+  | .arr #[.str "inf", .bool neg] => .ok (.inf neg)
+  | .arr #[.str "nan", .bool neg, .bool sg, p] => do pure (.nan neg sg (← asBigInt p).toNat)
+  | _ => .error "bad dec"
 
 def getNats (j : Json) (k : String) : Except String (List Nat) := do
   (← getArr j k).mapM fun x => match x.getNat? with
@@ -54,6 +75,8 @@ def getNats (j : Json) (k : String) : Except String (List Nat) := do
 partial def reprsAgree : Val → Bool
   | .str s r => pyReprStr tblPrintable s == r
   | .bytes _ bs r => pyReprBytes bs == r
+  | .float x r => x.repr == r   -- C05's shortest-repr model
+  | .decimal d r => decRepr d == r
   | .list xs => xs.all reprsAgree
   | .tuple xs => xs.all reprsAgree
   | .set _ xs => xs.all reprsAgree
@@ -67,10 +90,8 @@ partial def getVal (j : Json) : Except String Val := do
   | "none" => pure .none
   | "bool" => pure (.bool (← getBool j "v"))
   | "int" => pure (.int (← asBigInt (j.getObjValD "v")))
-  | "float" =>
-      match ← getNum j with
-      | some n => pure (.float n (← getStr j "repr"))
-      | none => .error "float without num"
+  | "float" => pure (.float (← getF64 j) (← getStr j "repr"))
+  | "decimal" => pure (.decimal (← getDec j) (← getStr j "repr"))
   | "str" => pure (.str (← getStr j "v") (← getStr j "repr"))
   | "bytes" => pure (.bytes (← getRef j) (← getNats j "bs") (← getStr j "repr"))
   | "qname" => pure (.qname (← getStr j "text"))
@@ -130,6 +151,7 @@ def run (op : String) (a : Json) : Option (Except String Json) :=
         ("outcome", jStr (outcome W v)),
         -- the hypotheses of Props.C18.code_rt_partial on this input
         ("hyps", jObj [("wf", jBool (wf W v)), ("dom", jBool (domOK W v)), ("renders", jBool (renders W v)), ("nesting", jBool (nestingOK W v)),
+                       ("init", jBool (initFalseAtDefault W v)), ("quiet", jBool (comparesQuietly W v)),
                        ("reprs", jBool (reprsAgree v))]),
         ("imports", jList (fun p => Json.arr #[jStr p.1, jStr p.2]) (importsEnv W v))])
   | "c18.seq" => some do
@@ -186,10 +208,18 @@ def run (op : String) (a : Json) : Option (Except String Json) :=
       pure <| match decodeBytesLit t with
         | some r => ok (jList jNat r)
         | none => err "unmodelled"
+  | "c18.decrepr" => some do
+      let d ← getDec a
+      pure <| ok (jObj [("repr", jStr (decRepr d)),
+        ("back", match readDecimal (decRepr d) with | some d' => jBool (d' == d) | none => Json.null)])
   | "c18.pyeq" => some do
       let x ← getVal (a.getObjValD "a")
       let y ← getVal (a.getObjValD "b")
-      pure <| ok (jBool (pyEq x y))
+      -- `a == b`, or the exception a signaling NaN makes it raise
+      pure <| match eqRaises x y with
+        | some true => err "InvalidOperation"
+        | none => err "unmodelled"
+        | some false => ok (jBool (pyEq x y))
   | _ => none
 
 end OpsCode
